@@ -6,6 +6,9 @@ include!(concat!(env!("OUT_DIR"), "/gram_mods.rs"));
 mod tj;
 mod util;
 mod c_term;
+mod diag;
+mod c_lex;
+mod corpus;
 
 fn main() {
     colored::control::set_override(false);
@@ -18,6 +21,10 @@ fn main() {
     match args[1].as_str() {
         "replay-term" => c_term::replay(rest),
         "record-term" => c_term::record(rest),
+        "replay-lex" => c_lex::replay(rest),
+        "record-lex" => c_lex::record(rest),
+        "record-relayout" => c_lex::record_relayout(rest),
+        "show-error" => c_lex::show_error(rest),
         other => {
             eprintln!("unknown subcommand {other}");
             std::process::exit(2);
